@@ -529,8 +529,21 @@ impl<'a> Gen<'a> {
         let mut dir = SDir::default();
         let mut prev_prods: Vec<(String, u8)> = vec![];
         let mut delegated = false;
+        // step names: distinct, free of glob metacharacters, otherwise anything a file name may hold
+        // (dots, spaces, non-ASCII letters, a leading dot) - they become parts of file and directory names
+        let step_names: Vec<String> = (0..nsteps)
+            .map(|i| match self.r.below(10) {
+                0 => format!("s{}.x86", i),
+                1 => format!("s{}.tar.gz", i),
+                2 => format!(".s{}", i),
+                3 => format!("s{} final", i),
+                4 => format!("s{}-\u{e9}t\u{e9}", i),
+                5 => format!("s{}.", i),
+                _ => format!("s{}", i),
+            })
+            .collect();
         for i in 0..nsteps {
-            let name = format!("s{}", i);
+            let name = step_names[i].clone();
             let co = self.co_delegate && depth > 0 && i == 0;
             let threshold = if co { 2 } else if self.multi_party { *self.r.pick(&[2u32, 2, 3]) } else { *self.r.pick(&[1u32, 1, 1, 2]) };
             let nauth = if self.multi_party { funs.len() } else { (threshold as usize).max(1 + self.r.below(2)).min(funs.len()) };
@@ -546,7 +559,7 @@ impl<'a> Gen<'a> {
                 vec![ArtifactRule::Disallow(vp("*"))]
             } else {
                 vec![
-                    ArtifactRule::Match { pattern: vp("*"), in_src: None, with: Artifact::Products, in_dst: None, from: format!("s{}", i - 1) },
+                    ArtifactRule::Match { pattern: vp("*"), in_src: None, with: Artifact::Products, in_dst: None, from: step_names[i - 1].clone() },
                     ArtifactRule::Disallow(vp("*")),
                 ]
             };
